@@ -276,6 +276,9 @@ func (x *Explorer) worker() {
 		if os.Getenv("GOSMT_PROGRESS") != "" && x.npaths%100 == 0 {
 			fmt.Fprintf(os.Stderr, "progress: started=%d done=%d infeasible=%d queue=%d violations=%d\n", x.npaths, x.res.Paths, x.res.Infeasible, len(x.work), len(x.res.Violations))
 		}
+		if siteLog != nil && x.npaths%20000 == 0 {
+			DumpSites()
+		}
 		x.active--
 		x.mu.Unlock()
 		x.cond.Broadcast()
@@ -499,6 +502,39 @@ func (in *interp) budget() {
 }
 
 // decide resolves a symbolic condition to a concrete branch side.
+var (
+	siteMu  sync.Mutex
+	siteLog map[string]int
+)
+
+func init() {
+	if os.Getenv("GOSMT_SITES") != "" {
+		siteLog = map[string]int{}
+	}
+}
+
+// DumpSites prints the fork sites collected under GOSMT_SITES (debugging aid).
+func DumpSites() {
+	if siteLog == nil {
+		return
+	}
+	type kv struct {
+		k string
+		n int
+	}
+	var l []kv
+	for k, n := range siteLog {
+		l = append(l, kv{k, n})
+	}
+	sort.Slice(l, func(i, j int) bool { return l[i].n > l[j].n })
+	for i, e := range l {
+		if i > 25 {
+			break
+		}
+		fmt.Fprintf(os.Stderr, "site %6d %s\n", e.n, e.k)
+	}
+}
+
 func (in *interp) decide(c *smt.Term) bool {
 	if c.IsConst() {
 		return c.Val == 1
@@ -531,6 +567,12 @@ func (in *interp) decide(c *smt.Term) bool {
 		return d.Taken
 	}
 	in.budget()
+	if siteLog != nil {
+		w := in.where()
+		siteMu.Lock()
+		siteLog[w]++
+		siteMu.Unlock()
+	}
 	if in.ensureModel() {
 		// model-guided: the side the current model takes is feasible for free
 		b := smt.Eval(c, in.model, map[int]uint64{}) != 0
